@@ -44,7 +44,6 @@ size_t verif_b_size;                 /* ghost: B's domain is [0, verif_b_size) *
    VERIF_ALL(DIMS_IN, MORTON_EXTENT_OK_K, sizes))
 
 #define CONTRACT_morton_at(self, c) \
-  __CPROVER_requires(__CPROVER_is_fresh(self, sizeof(*self))) \
   __CPROVER_requires(MORTON_INV((self)->m_sizes)) \
   __CPROVER_requires(VERIF_ALL(DIMS_IN, MORTON_C_IN_RANGE_K, self, c)) \
   __CPROVER_requires(verif_b_calls == 0) \
